@@ -22,6 +22,7 @@ type ruxStep struct {
 	Mw      int      `json:"mw"`
 	Scripts []string `json:"scripts"`
 	Ms      []string `json:"ms"`
+	Main    string   `json:"main"`
 	Route   int      `json:"route"`
 	Hmna    bool     `json:"hmna"`
 	Cap     int      `json:"cap"`
@@ -53,8 +54,25 @@ type ruxExec struct {
 func (x *ruxExec) handler(pos, idx int, script string) rux.HandlerFunc {
 	id := []any{pos, idx}
 	return func(c *rux.Context) {
+		if len(*x.log) == 0 {
+			// the first instrumented handler of a request: the context must be pristine whatever earlier requests did (C10)
+			if v, ok := c.Get("resid"); ok || len(c.Errors) != 0 || c.IsAborted() || c.Length() != -1 || c.Req.Header.Get("X-Resid") != "" {
+				*x.log = append(*x.log, []any{"residue", id, fmt.Sprintf("data resid=%v errors=%d aborted=%v length=%d X-Resid=%q",
+					v, len(c.Errors), c.IsAborted(), c.Length(), c.Req.Header.Get("X-Resid"))})
+			}
+		}
 		*x.log = append(*x.log, []any{"in", id, c.IsAborted()})
 		switch script {
+		case "E":
+			c.AddError(fmt.Errorf("boom"))
+			c.Next()
+		case "D":
+			c.Set("resid", id)
+			c.Req = c.Req.Clone(c.Req.Context())
+			c.Req.Header.Set("X-Resid", "1")
+			c.Next()
+		case "MP":
+			panic(&panicToken{pos})
 		case "N":
 			c.Next()
 		case "A":
@@ -70,6 +88,13 @@ func (x *ruxExec) handler(pos, idx int, script string) rux.HandlerFunc {
 		}
 		*x.log = append(*x.log, []any{"out", id, c.IsAborted()})
 	}
+}
+
+func mainScript(m string) string {
+	if m == "" {
+		return "M"
+	}
+	return m
 }
 
 func (x *ruxExec) mws(pos int, st ruxStep) []rux.HandlerFunc {
@@ -95,7 +120,7 @@ func (x *ruxExec) run(prog []ruxStep, i int) int {
 		case "use":
 			x.r.Use(x.mws(pos, st)...)
 		case "add":
-			x.routes = append(x.routes, x.r.Add(tokStr(st.Path), x.handler(pos, 0, "M"), st.Ms...).Use(x.mws(pos, st)...))
+			x.routes = append(x.routes, x.r.Add(tokStr(st.Path), x.handler(pos, 0, mainScript(st.Main)), st.Ms...).Use(x.mws(pos, st)...))
 		case "ruse":
 			x.routes[st.Route-1].Use(x.mws(pos, st)...)
 		case "serve":
@@ -125,6 +150,11 @@ func ruxReplay(s *Summary, raw json.RawMessage) {
 	}
 	log := [][]any{}
 	x := &ruxExec{r: rux.New(opts...), log: &log}
+	x.r.OnError = func(c *rux.Context) { c.SetStatus(500) }
+	x.r.OnPanic = func(c *rux.Context) {
+		c.SetStatus(503)
+		_, _ = c.Resp.Write([]byte("xxx"))
+	}
 	var pan any
 	func() {
 		defer func() { pan = recover() }()
